@@ -155,6 +155,7 @@ pub fn run(tier: Tier, report: &mut Report, family_docs: &dyn Fn(&str) -> Vec<Do
         let fam = family_docs(format);
         for lit in &lits {
             let mut docs = boundary_docs(format, lit);
+            docs.extend(crate::gen::header_docs(format));
             let n_boundary = docs.len();
             docs.extend(fam.iter().cloned());
             let docs = dedup_docs(docs);
